@@ -23,13 +23,14 @@ def kernel(env):
     kernel's tolerance mask is inactive)"""
     import openaerostruct.aerodynamics.eval_mtx as E
     xp = env.xp
+    KP = "C05,C04,C06,C07,C08,C09,C19"      # every aerodynamic property rests on the kernels
     env.indicator_branch = 1
     env.indicator_only = core.kernel_tol_mask          # only the documented |den| <= 1e-10 guard of the kernels is exempt
     # panel sizes from millimetres to tens of metres (den = |r1||r2| + r1.r2 well above the documented 1e-10 guard)
     sc = env.var("scale", ())
     r1 = env.var("r1", (3,)) * sc
     r2 = env.var("r2", (3,)) * sc
-    env.eq("C05", "finite vortex segment == Biot-Savart (r1 x r2)/|r1 x r2|^2 (r1-r2).(r1/|r1| - r2/|r2|) / 4pi",
+    env.eq(KP, "finite vortex segment == Biot-Savart (r1 x r2)/|r1 x r2|^2 (r1-r2).(r1/|r1| - r2/|r2|) / 4pi",
            env.call(E._compute_finite_vortex, r1, r2), vlm.seg_textbook(xp, r1, r2))
     # pointwise: the velocity one segment induces at one point does not depend on what else is evaluated in the same call
     # (another surface 1e2 ... 1e7 chords away shares the arrays)
@@ -37,12 +38,12 @@ def kernel(env):
     q1 = env.var("q1", (3,)) * far
     q2 = env.var("q2", (3,)) * far
     both = env.call(E._compute_finite_vortex, np.array([r1, q1], dtype=object if env.sym else float), np.array([r2, q2], dtype=object if env.sym else float))
-    env.eq("C05,C19", "finite vortex segment is evaluated pointwise: a far-away pair in the same call does not change the near one",
+    env.eq(KP, "finite vortex segment is evaluated pointwise: a far-away pair in the same call does not change the near one",
            both[0], env.call(E._compute_finite_vortex, r1, r2))
-    env.eq("C05,C19", "... nor the near pair the far one", both[1], env.call(E._compute_finite_vortex, q1, q2))
+    env.eq(KP, "... nor the near pair the far one", both[1], env.call(E._compute_finite_vortex, q1, q2))
     u = env.var("u", (3,))
     r = env.var("r", (3,)) * sc
-    env.eq("C05", "semi-infinite trailing leg == (u x r) / (|r| (|r| - u.r)) / 4pi",
+    env.eq(KP, "semi-infinite trailing leg == (u x r) / (|r| (|r| - u.r)) / 4pi",
            env.call(E._compute_semi_infinite_vortex, u, r), vlm.semi_textbook(xp, u, r))
 
 
